@@ -323,3 +323,72 @@ Theorem C12_area_rectangle (sizes : list Q) (gap pos : Q) (x w : nat) : (x + w <
   track_start sizes gap pos x + span_extent sizes gap x w == track_start sizes gap pos (x + w) - gap.
 Proof. exact (span_extent_spec sizes gap pos x w). Qed.
 Print Assumptions C12_area_rectangle.
+
+(* ---- the placement helpers of weasyprint/layout/grid.py REGENERATED from the source on every run
+   (gen/GenGrid.v, interpreter base/Py.v) compute the models intersect, intersect_with_children, get_span and
+   get_placement used by the placement theorems above.  Grid lines are the tuples (span, number, name) of
+   css/validation with name None, or 'auto' (G.vline); integers are Py.vint; `lines` is any list of line-name
+   lists; from_end=True counts a negative integer from the end of the explicit grid (G.rlz = the model's
+   resolve_line).  The searches for NAMED lines of _get_line / _get_placement are outside the translated subset:
+   they are printed as calls of "%unsupported" (an error value when executed) and the theorems - a value is
+   returned - show they are not reached for lines without names.  Calls are linked (base/PyLink.v): the callee is
+   the source's own regenerated function. *)
+From Coq Require Import String.
+Require WV.base.Py WV.base.PyLink WV.gen.GenGrid.
+Require WV.proofs.C12_gen_grid_base WV.proofs.C12_gen_grid_place WV.proofs.C12_gen_grid_children.
+Module G := WV.proofs.C12_gen_grid_base.
+Module GP := WV.proofs.C12_gen_grid_place.
+Module GC := WV.proofs.C12_gen_grid_children.
+
+(* _intersect(position_1, size_1, position_2, size_2) is the model's intersect, on all integers *)
+Theorem C12_source_intersect O (HO : Py.ops_ok O) (p1 s1 p2 s2 : Z) :
+  Py.run O GenGrid.grid_intersect_body
+    [("position_1"%string, Py.vint p1); ("size_1"%string, Py.vint s1); ("position_2"%string, Py.vint p2);
+     ("size_2"%string, Py.vint s2)]
+    (fun _ r => r = Some (Py.VBool (intersect p1 s1 p2 s2))) (fun _ => False).
+Proof. exact (G.gen_intersect O HO p1 s1 p2 s2). Qed.
+Print Assumptions C12_source_intersect.
+
+(* _intersect_with_children(x, y, width, height, positions), calling the source's _intersect, is the model's
+   intersect_with_children: every area, every list of placed areas *)
+Theorem C12_source_intersect_with_children n (x y w h : Z) (ps : list area) :
+  Py.run (PyLink.linked GenGrid.GenGrid_table (S n)) GenGrid.grid_intersect_with_children_body
+    [("x"%string, Py.vint x); ("y"%string, Py.vint y); ("width"%string, Py.vint w); ("height"%string, Py.vint h);
+     ("positions"%string, Py.VList (map GC.varea ps))]
+    (fun _ r => r = Some (Py.VBool (intersect_with_children (x, y, w, h) ps))) (fun _ => False).
+Proof. exact (GC.gen_intersect_with_children n x y w h ps). Qed.
+Print Assumptions C12_source_intersect_with_children.
+
+(* _get_span(place) is the model's get_span on every tuple (whatever the name of the line); no call site passes
+   'auto' *)
+Theorem C12_source_get_span O (HO : Py.ops_ok O) (sp : bool) (n : Z) (name : Py.val) :
+  Py.run O GenGrid.grid_get_span_body
+    [("place"%string, Py.VList [if sp then Py.VStr "span" else Py.VNone; Py.vint n; name])]
+    (fun _ r => r = Some (Py.vint (get_span (if sp then GSpan n else GLine n)))) (fun _ => False).
+Proof. exact (G.gen_get_span O HO sp n name). Qed.
+Print Assumptions C12_source_get_span.
+
+(* _get_placement(start, end, lines, from_end), calling the source's _get_line, returns the model's get_placement
+   (None -> None, Some (coordinate, size) -> the pair): all nine auto / integer / span patterns, every integer,
+   every list of line names, from_end or not; it never raises and never reaches a named-line search *)
+Theorem C12_source_get_placement n (s e : gline) (ls : list Py.val) (fe : bool) :
+  Py.run (PyLink.linked GenGrid.GenGrid_table (S n)) GenGrid.grid_get_placement_body
+    [("start"%string, G.vline s); ("end"%string, G.vline e); ("lines"%string, Py.VList ls);
+     ("from_end"%string, Py.VBool fe)]
+    (fun _ r => r = Some (GP.vpl (get_placement (GP.rlz fe (Z.of_nat (List.length ls)) s)
+                                                (GP.rlz fe (Z.of_nat (List.length ls)) e))))
+    (fun _ => False).
+Proof. exact (GP.gen_get_placement n s e ls fe). Qed.
+Print Assumptions C12_source_get_placement.
+
+(* with from_end=True (every call made with the grid-placement properties of an item) the lines are those of
+   resolve_item, the first step of the model's grid_layout_place *)
+Theorem C12_source_get_placement_resolved n (s e : gline) (ls : list Py.val) :
+  Py.run (PyLink.linked GenGrid.GenGrid_table (S n)) GenGrid.grid_get_placement_body
+    [("start"%string, G.vline s); ("end"%string, G.vline e); ("lines"%string, Py.VList ls);
+     ("from_end"%string, Py.VBool true)]
+    (fun _ r => r = Some (GP.vpl (get_placement (resolve_line (Z.of_nat (List.length ls)) s)
+                                                (resolve_line (Z.of_nat (List.length ls)) e))))
+    (fun _ => False).
+Proof. exact (GP.gen_get_placement n s e ls true). Qed.
+Print Assumptions C12_source_get_placement_resolved.
